@@ -128,7 +128,7 @@ class C15:
     rule = (
         "cases = (random alias table of 1-8 entries over list / plain-string / exec-string / callable / decorator / return_command aliases whose "
         "leading words refer to each other in arbitrary graphs incl. self-loops and cycles, invoked command with hostile user arguments), each table "
-        "built in 3 random insertion orders and resolved through Aliases.get and SubprocSpec.build; distinct_nontrivial = distinct (table, command) pairs "
+        "built in 3 random insertion orders and resolved (twice per table) through Aliases.get and SubprocSpec.build; distinct_nontrivial = distinct (table, command) pairs "
         "whose expansion chain has at least 2 links or meets a cycle"
     )
     assumptions = [
